@@ -97,17 +97,8 @@ def run(ctx):
                     sent = ast.unparse(k.value)
     r3.check(sent in (dp, f"{dp} or []", f"list({dp})", f"list({dp} or [])"), f"{cs.module.relpath}::{cs.qual}", f"send(..., deps={sent})",
              f"the client sends deps={sent}, not the complete id list", cs.where)
-    enq = idx.func("gwf.backends.local:Scheduler.enqueue_task")
-    th = idx.func("gwf.backends.local:Scheduler.try_handle_task")
-    ok = False
-    for c in _calls(enq.node):
-        if isinstance(c.func, ast.Attribute) and c.func.attr == th.name:
-            want = th.positional_params()[1:]
-            got = [dotted(a) for a in c.args]
-            kw = {k.arg: dotted(k.value) for k in c.keywords}
-            ok = (got == want[: len(got)] and all(kw.get(k, k) == k for k in kw)) and (len(got) + len(kw) == len(want))
-    r3.check(ok, f"{enq.module.relpath}::{enq.qual}::binding", "enqueue_task passes each of its parameters to the same-named parameter of the task coroutine",
-             "enqueue_task binds its arguments to the wrong parameters of the task coroutine (e.g. deps and time_limit swapped)", enq.where)
+    from .localpool import rule_enqueue_binding
+    rule_enqueue_binding(ctx, r3)
     from ..inline import inlined
     hc = inlined(ctx, idx.func("gwf.backends.local:Server.handle_connection"))
     ok = any(isinstance(c.func, ast.Attribute) and c.func.attr == "enqueue_task" and any(
